@@ -87,9 +87,13 @@ theorem stepT_chainOK {d : Doc V E} {cfg : Cfg} (hg : cfg.sharedGuard = false) {
     · simp only [Option.some.injEq] at hs
       rw [show t' = _ from (congrArg Prod.snd hs).symm]
       exact runTo_chainOK d cfg sh _ _ hch
-    · simp only [Option.some.injEq, Prod.mk.injEq] at hs
-      rw [← hs.2]
-      exact ⟨by simp [ctlKeys, hch], rfl⟩
+    · split at hs
+      · simp only [Option.some.injEq] at hs
+        rw [show t' = _ from (congrArg Prod.snd hs).symm]
+        exact runTo_chainOK d cfg sh _ _ hch
+      · simp only [Option.some.injEq, Prod.mk.injEq] at hs
+        rw [← hs.2]
+        exact ⟨by simp [ctlKeys, hch], rfl⟩
   | pushed T r k =>
     simp only [ctlKeys, List.singleton_append] at hch
     simp only [stepT] at hs
